@@ -117,6 +117,17 @@ func newC19Fixtures() *c19Fixtures {
 	add("token(A,k1)-truncated", tA[:len(tA)-7], false)
 	add("garbage", []byte{0xd2, 0x84, 0x01, 0x02}, false)
 	add("signed-by-k1-non-claims-payload", envelope(vA.prot, nil, garbagePayload, rawSign(f.k1, "ES256", vA.prot, garbagePayload)), false)
+	// a claims map that names a registered profile but cannot be decoded completely (client id given as text)
+	bad := wireTree(f.absA, true)
+	for i, p := range bad.Pairs {
+		if k, _ := p[0].Int(); k == 2394 {
+			bad.Pairs[i][1] = mcbor.T("not-an-integer")
+		}
+	}
+	badPayload := mcbor.Encode(bad)
+	add("signed-by-k1-claims-map-with-wrong-type", envelope(vA.prot, nil, badPayload, rawSign(f.k1, "ES256", vA.prot, badPayload)), false)
+	nullPayload := []byte{0xf6}
+	add("signed-by-k1-null-payload", envelope(vA.prot, nil, nullPayload, rawSign(f.k1, "ES256", vA.prot, nullPayload)), false)
 	return f
 }
 
@@ -346,9 +357,9 @@ func init() {
 			d = 4
 		}
 		exploreBFS(r, "c19.evidence", bfs.Options{Dedup: false, MaxDepth: d, Deadline: dl})
-		r.Set("rule", "BFS over operation histories on one real Evidence (31 operations incl. 5 faulty signers, 8 decode inputs, in-place and out-of-band claim changes, Verify as an operation); state = history, deduplicated by a canonical key read from the real object (claims getters, replaced/failed flags, envelope payload/protected, signature class); invariants of C19 evaluated in every state; distinct = distinct canonical states; non-trivial = all but the initial state")
+		r.Set("rule", "BFS over operation histories on one real Evidence (33 operations incl. 5 faulty signers, 10 decode inputs, in-place and out-of-band claim changes, Verify as an operation); state = history, deduplicated by a canonical key read from the real object (claims getters, replaced/failed flags, envelope payload/protected, signature class); invariants of C19 evaluated in every state; distinct = distinct canonical states; non-trivial = all but the initial state")
 		r.Set("distinct_nontrivial", max64(res.States-1, 0))
-		r.Set("bounds", map[string]any{"operations": 31, "keyed_search": "to fixpoint", "undeduplicated_depth": d})
+		r.Set("bounds", map[string]any{"operations": 33, "keyed_search": "to fixpoint", "undeduplicated_depth": d})
 		r.Assume = append(r.Assume, "signing operations are enabled only while claims are attached (as in the statement)", "a failed decode attempt also replaces the envelope, so the 'verification fails after a failed signing attempt' clause is evaluated until the next sign or decode attempt", "ES256 keys k1/k2; signatures abstracted to 'valid for key k' in the state key")
 		_ = mcbor.Encode
 	}
